@@ -192,11 +192,35 @@ static void setup(void) {
     snprintf(SP.prefix, sizeof SP.prefix, "hashtbl:%d:%d:%d:", RANGE, U, NV);
     SP.nops = NOPS; SP.label = op_label; SP.transition = transition; SP.initial = initial;
 }
+/* ranges around and above INT_MAX: the range is a size_t, the slot array is calloc'ed (untouched pages cost nothing), and a key
+ * whose hash % range is >= 2^31 lands in the upper half. Skipped (counted) when the machine refuses the allocation. */
+static void hugerange(void) {
+    const size_t R[] = {2147483647u, 2147483648u, 3000000000u, 4294967295u};
+    for (int ri = 0; ri < 4; ri++) {
+        char key[64]; snprintf(key, sizeof key, "hashtbl-hugerange:%zu", R[ri]);
+        if (!vc_case("qhashtbl_put", key)) continue;
+        qhashtbl_t *t = qhashtbl(R[ri], 0);
+        if (!t) { vc_stat_add("hugerange_skipped", 1); printf("NOTE\tqhashtbl(%zu) could not be allocated here (errno %d): range skipped\n", R[ri], errno); vc_case_end(); continue; }
+        char names[12][16]; int n = 0, upper = 0;
+        for (int i = 0; i < 4000 && n < 12; i++) { char nm[16]; snprintf(nm, sizeof nm, "k%d", i); size_t slot = ref_mm32(nm, strlen(nm)) % R[ri]; int up = slot >= 2147483648u; if ((up && upper < 8) || (!up && n - upper < 4)) { strcpy(names[n++], nm); upper += up; } }
+        for (int i = 0; i < n; i++) if (!t->putstr(t, names[i], names[i])) vc_viol("map:put-failed", "range %zu: putstr('%s') failed", R[ri], names[i]);
+        if ((int)t->size(t) != n) vc_viol("map:size", "range %zu: size %zu after %d puts", R[ri], t->size(t), n);
+        for (int i = 0; i < n; i++) { char *v = t->getstr(t, names[i], true); if (!v || strcmp(v, names[i])) vc_viol("map:get-missing", "range %zu: key '%s' (slot %zu) not found", R[ri], names[i], (size_t)(ref_mm32(names[i], strlen(names[i])) % R[ri])); free(v); }
+        for (int i = 0; i < n; i++) if (!t->remove(t, names[i])) vc_viol("map:remove-result", "range %zu: remove('%s') failed", R[ri], names[i]);
+        if (t->size(t) != 0) vc_viol("map:size", "range %zu: size %zu after removing everything", R[ri], t->size(t));
+        t->free(t);
+        vc_stat_add("transitions", 3 * n); vc_stat_add("states", n); vc_stat_add("hugerange_keys_in_upper_half", upper);
+        vc_case_end();
+    }
+    vc_sample("qhashtbl(3000000000): put / get / remove of keys whose slot index is above INT_MAX");
+}
 static int worker(int argc, char **argv) {
+    if (vc_replay_key && !strncmp(vc_replay_key, "hashtbl-hugerange", 17)) { hugerange(); return 0; }
     if (vc_replay_key) {
         int off; if (sscanf(vc_replay_key, "hashtbl:%d:%d:%d:%n", &RANGE, &U, &NV, &off) < 3) return 1;
         setup(); vc_case("replay", vc_replay_key); return sm_replay(&SP, vc_replay_key + off);
     }
+    if (argc >= 2 && !strcmp(argv[1], "hugerange")) { hugerange(); return 0; }
     if (argc < 4) return 1;
     RANGE = atoi(argv[1]); U = atoi(argv[2]); NV = atoi(argv[3]);
     setup();
